@@ -26,6 +26,9 @@ TR = "droplets.droplet_tracks"
 
 
 def check(ctx: Ctx):
+    from ..rules import support as _support
+
+    _support.check_ctor_dtype_precedence(ctx)
     m = ctx.model
     ctx.explain(
         "Ownership (who-may-store over all functions of the package, copy-on-insert dataflow on default paths), fresh derivations through "
@@ -79,7 +82,7 @@ def check(ctx: Ctx):
     ctx.expect("OWN", 8)
     ctx.expect("FRESH", 9)
     ctx.expect("PAIR", 8)
-    ctx.expect("REJECT", 2)
+    ctx.expect("REJECT", 3)
     ctx.expect("REMOVE", 2)
     ctx.expect("NONETEST", 3)
     ctx.expect("LINK", 1)
